@@ -237,16 +237,18 @@ class Parser:
         token = self.next()
         kind = token.kind
         precedence = PRECEDENCES.get(kind, PRECEDENCE_LOWEST)
-        right = self.parse_expression(precedence)
+        # Further operands of the same operator are collected by the caller's
+        # loop, so a long chain does not deepen the recursion.
+        right = self.parse_expression(precedence + 1)
 
         if kind == TokenKind.CHOICE_OP:
-            if isinstance(right, Choice):
-                return Choice(left, *right.expressions)
+            if isinstance(left, Choice):
+                return Choice(*left.expressions, right)
             return Choice(left, right)
 
         if kind == TokenKind.SEQUENCE_OP:
-            if isinstance(right, Sequence):
-                return Sequence(left, *right.expressions)
+            if isinstance(left, Sequence):
+                return Sequence(*left.expressions, right)
             return Sequence(left, right)
 
         raise PestGrammarSyntaxError(f"unexpected operator {kind}", token=token)
